@@ -1,6 +1,6 @@
 //! C07 - dual hashes are a lossless, canonical encoding of raw plus normalised.
 
-use crate::api::{build_raw, content, fixed_hash, fixed_hash2};
+use crate::api::{build_raw, content, fixed_hash, fixed_hash2, hasher_input};
 use crate::engine::{enumerated, generated, must, Stats, SubCheck, Tier};
 use crate::gens::{self, RawH};
 use oracle::fmt::{is_collapsed, rle_entries_needed};
@@ -67,6 +67,8 @@ macro_rules! dual_checks {
         ensure_eq!(od == first, other == h, "{}: equality of duals vs equality of raw hashes [{} / {}]", stringify!($dual), text, other.text());
         ensure_eq!(first == od, other == h, "{}: equality of duals (operands swapped) vs equality of raw hashes [{} / {}]", stringify!($dual), text, other.text());
         ensure_eq!(od != first, other != h, "{}: != of duals vs raw hashes [{} / {}]", stringify!($dual), text, other.text());
+        // "hash as equal if and only if": what is fed to the hasher is the same exactly for equal raw hashes
+        ensure_eq!(hasher_input(&od) == hasher_input(&first), other == h, "{}: equality of the byte streams fed to the hasher vs equality of raw hashes [{} / {}]", stringify!($dual), text, other.text());
         if other.collapsed() == h.collapsed() && other != h {
             $st.class("partner_shares_normalised_part");
         }
@@ -232,7 +234,53 @@ fn many_runs() -> impl Strategy<Value = RawH> {
         })
 }
 
+/// two raw hashes with the same normalised form whose only long run has the same position and length,
+/// once in block hash 1 and once in block hash 2 (their RLE entries are the same bytes in different blocks)
+fn rle_swap_pair() -> impl Strategy<Value = Case> {
+    (gens::log_bs(), 0usize..20, 0u8..64, 0u8..64, 1usize..9, proptest::collection::vec(0u8..64, 0..8), proptest::collection::vec(0u8..64, 0..8), any::<u64>()).prop_map(
+        |(log, l, a, b, n, s1, s2, seed)| {
+            let mut r = SplitMix(seed);
+            let mut prefix = |avoid: u8| -> Vec<u8> {
+                let mut v: Vec<u8> = Vec::new();
+                while v.len() < l {
+                    let c = (r.next() % 64) as u8;
+                    if c != avoid && v.last() != Some(&c) {
+                        v.push(c);
+                    }
+                }
+                v
+            };
+            let (p1, p2) = (prefix(a), prefix(b));
+            let tail = |s: &Vec<u8>, avoid: u8| -> Vec<u8> {
+                let mut v: Vec<u8> = Vec::new();
+                for &c in s {
+                    let c = if c == avoid { (c + 1) % 64 } else { c };
+                    if v.last() != Some(&c) && !(v.is_empty() && c == avoid) {
+                        v.push(c);
+                    }
+                }
+                v.truncate(4);
+                v
+            };
+            let (t1, t2) = (tail(&s1, a), tail(&s2, b));
+            let build = |p: &Vec<u8>, sym: u8, run: usize, t: &Vec<u8>| -> Vec<u8> {
+                let mut v = p.clone();
+                v.extend(std::iter::repeat(sym).take(run));
+                v.extend(t.iter().copied());
+                v
+            };
+            let h = RawH { log, bh1: build(&p1, a, 3 + n, &t1), bh2: build(&p2, b, 3, &t2) };
+            let other = RawH { log, bh1: build(&p1, a, 3, &t1), bh2: build(&p2, b, 3 + n, &t2) };
+            Case { h, other }
+        },
+    )
+}
+
 pub fn strategy() -> impl Strategy<Value = Case> {
+    prop_oneof![9 => strategy_main(), 1 => rle_swap_pair()]
+}
+
+fn strategy_main() -> impl Strategy<Value = Case> {
     (
         prop_oneof![3 => gens::raw_hash(64), 2 => gens::raw_hash(32), 3 => many_runs()],
         prop_oneof![3 => gens::raw_hash(64), 1 => Just(RawH { log: 0, bh1: vec![], bh2: vec![] })],
